@@ -705,7 +705,16 @@ class History(object):
         for d in decoded:
             if d is not None:
                 carried.setdefault(d[0], []).append(d[1])
-        required_kinds = set(kinds[m] for m in route.required)
+        # which route serves this request: Klein/werkzeug match on (URL, method), and HEAD is served by
+        # the GET rule of the same URL.  With a varied method that is not the route we started from.
+        served = route
+        if wrong_method:
+            served = None
+            for cand in self.routes:
+                if cand.url == route.url and (method in cand.methods or (method == "HEAD" and "GET" in cand.methods)):
+                    served = cand
+        case["served_by"] = served.name if served is not None else None
+        required_kinds = set(kinds[m] for m in served.required) if served is not None else set()
         missing = [k for k in required_kinds if k not in carried]
         extra_kinds = [k for k in carried if k in kinds.values() and k not in required_kinds]
         short_lease = [k for k in carried if k.startswith("lease-") for v in carried[k] if len(v) != 32]
@@ -720,17 +729,25 @@ class History(object):
                                 case=case, expected=401, observed=code)
         else:
             nontrivial = (route.name, arecipe, tuple(sorted(xrecipes)), tkind, code)
+            sname = served.name if served is not None else None
+            if served is None and (ok2xx or diff):
+                ctx.oracle_fail("unrouted-method-accepted:" + route.name,
+                                "%s on %s (no route serves that method there) got %d%s" % (method, route.url, code, ", state changed: " + diff if diff else ""),
+                                case=case, expected="405 and unchanged state", observed={"status": code, "state_change": diff})
+            if method == "HEAD" and diff:
+                ctx.oracle_fail("head-request-changed-state:" + route.name, "HEAD %s changed the state: %s" % (path, diff),
+                                case=case, expected="unchanged state", observed=diff)
             if (malformed or missing or extra_kinds or short_lease) and (ok2xx or diff):
                 what = ("malformed" if malformed else "missing" if missing else "extra" if extra_kinds else "wrong-length")
-                ctx.oracle_fail("bad-secrets-accepted:%s:%s" % (what, route.name),
-                                "%s with %s secret header(s) %s got %d%s" % (route.name, what, xrecipes, code, ", state changed: " + diff if diff else ""),
+                ctx.oracle_fail("bad-secrets-accepted:%s:%s" % (what, sname or route.name),
+                                "%s %s (served by %s) with %s secret header(s) %s got %d%s" % (method, route.name, sname, what, xrecipes, code, ", state changed: " + diff if diff else ""),
                                 case=case, expected="400/401 and unchanged state", observed={"status": code, "state_change": diff})
-            if route.name in ("write_share_data", "abort_share_upload") and (si, sh) in uploads_before:
+            if sname in ("write_share_data", "abort_share_upload") and (si, sh) in uploads_before:
                 if uploads_before[(si, sh)] not in carried.get(kinds.get("UPLOAD", "upload-secret"), []) and (ok2xx or diff):
                     ctx.oracle_fail("upload-secret-not-required:" + route.name,
                                     "%s on an in-progress upload without its upload secret got %d%s" % (route.name, code, ", state changed: " + diff if diff else ""),
                                     case=case, expected="401 and unchanged upload", observed={"status": code, "state_change": diff})
-            if route.name == "mutable_read_test_write" and si in self.slots and had_mutable:
+            if sname == "mutable_read_test_write" and si in self.slots and had_mutable:
                 if self.slots[si] not in carried.get(kinds.get("WRITE_ENABLER", "write-enabler"), []) and (ok2xx or diff):
                     ctx.oracle_fail("write-enabler-not-required",
                                     "read-test-write on an existing slot without its write enabler got %d%s" % (code, ", state changed: " + diff if diff else ""),
